@@ -158,7 +158,7 @@ fn main() {
     // (d) boundary numerals in every numeric slot
     let nums = ["0", "00", "4294967295", "4294967296", "04294967295", "99999999999", "18446744073709551616", "340282366920938463463374607431768211456",
         // leading zeros in front of numbers at and above the integer widths (normalisation must still strip them)
-        "04294967296", "00099999999999", "0018446744073709551616", "000000000000000000000000000001", "0000000000000000000000000000000"];
+        "04294967296", "00099999999999", "0018446744073709551616", "0340282366920938463463374607431768211456", "000115792089237316195423570985008687907853269984665640564039457584007913129639936", "000000000000000000000000000001", "0000000000000000000000000000000"];
     let templates = ["{N}", "{N}.0", "1.{N}", "1.0.{N}.1", "{N}!1.0", "1.0a{N}", "1.0rc.{N}", "1.0.post{N}", "1.0-{N}", "1.0.dev{N}", "1.0+{N}", "1.0+a.{N}", "1.0+{N}.a",
         "{N}!{N}.{N}a{N}.post{N}.dev{N}+{N}"];
     let mut sd = Stats::default();
